@@ -81,7 +81,7 @@ impl GitConfig {
 }
 
 // ---------------------------------------------------------------- options/set.rs: --no-gitconfig
-//@ type src/cli.rs Opt keep=features,no_gitconfig,minus_style,minus_emph_style noderive
+//@ type src/cli.rs Opt keep=features,no_gitconfig,minus_style,minus_emph_style,raw,color_only,diff_highlight,diff_so_fancy,hyperlinks,line_numbers,navigate,side_by_side noderive
 
 //@ region src/options/set.rs set_options
 //@sig pub fn set_options_no_gitconfig_prologue(opt: &mut cli::Opt, git_config: &mut Option<GitConfig>)
@@ -186,6 +186,54 @@ pub open spec fn main_section_spec(fs: Seq<String>, builtin: Map<String, Builtin
 //@loop 1| invariant *opt == *old(opt), it.seq().len() == split_ws(feature_string@).len(),
 //@loop 1|     forall|i: int| 0 <= i < it.seq().len() ==> (#[trigger] it.seq()[i])@ == split_ws(feature_string@)[split_ws(feature_string@).len() - 1 - i],
 //@loop 1|     features@ == gather_listed(features_in@, split_ws(feature_string@), it.index@, builtin_features@, opt, git_config),
+
+
+// ---------------------------------------------------------------- options/set.rs gather_features: named features, then the flags given on the command line
+pub uninterp spec fn gbfr_spec(fs: Seq<String>, feature: Seq<char>, builtin: Map<String, BuiltinFeature>, opt: &cli::Opt) -> Seq<String>;
+#[verifier::external_body]
+pub fn gather_builtin_features_recursively(feature: &str, features: &mut VecDeque<String>, builtin_features: &HashMap<String, BuiltinFeature>, opt: &cli::Opt)
+    ensures final(features)@ == gbfr_spec(old(features)@, feature@, builtin_features@, opt),
+{ unimplemented!() }
+/// the features named by --features / DELTA_FEATURES, gathered in the order given (each is pushed to the FRONT, so a later
+/// one ends up before an earlier one and - the list being read from the right - has lower priority)
+pub open spec fn gather_named(fs: Seq<String>, named: Seq<&str>, k: int, builtin: Map<String, BuiltinFeature>, opt: &cli::Opt, gc: &Option<GitConfig>) -> Seq<String>
+    decreases k
+{
+    if k <= 0 || k > named.len() { fs } else {
+        let prev = gather_named(fs, named, k - 1, builtin, opt, gc);
+        match gc {
+            Some(g) => gfr_spec(prev, named[k - 1]@, builtin, opt, g),
+            None => seq![str_key(named[k - 1]@)] + prev,
+        }
+    }
+}
+pub open spec fn flag_step(fs: Seq<String>, on: bool, name: Seq<char>, builtin: Map<String, BuiltinFeature>, opt: &cli::Opt) -> Seq<String> {
+    if on { gbfr_spec(fs, name, builtin, opt) } else { fs }
+}
+/// C13: first the named features, then the feature FLAGS of the command line in this fixed order - so every flag ends up
+/// in front of every named feature, i.e. has lower priority
+pub open spec fn named_then_flags_spec(named: Seq<&str>, builtin: Map<String, BuiltinFeature>, opt: &cli::Opt, gc: &Option<GitConfig>) -> Seq<String> {
+    let f0 = gather_named(Seq::empty(), named, named.len() as int, builtin, opt, gc);
+    let f1 = flag_step(f0, opt.raw, "raw"@, builtin, opt);
+    let f2 = flag_step(f1, opt.color_only, "color-only"@, builtin, opt);
+    let f3 = flag_step(f2, opt.diff_highlight, "diff-highlight"@, builtin, opt);
+    let f4 = flag_step(f3, opt.diff_so_fancy, "diff-so-fancy"@, builtin, opt);
+    let f5 = flag_step(f4, opt.hyperlinks, "hyperlinks"@, builtin, opt);
+    let f6 = flag_step(f5, opt.line_numbers, "line-numbers"@, builtin, opt);
+    let f7 = flag_step(f6, opt.navigate, "navigate"@, builtin, opt);
+    flag_step(f7, opt.side_by_side, "side-by-side"@, builtin, opt)
+}
+//@ region src/options/set.rs gather_features
+//@sig pub fn gather_features_named_then_flags(opt: &mut cli::Opt, input_features: Vec<&str>, builtin_features: &HashMap<String, BuiltinFeature>, git_config: &Option<GitConfig>) -> (r: VecDeque<String>)
+//@from <<<let mut features = VecDeque::new();>>>
+//@to <<<gather_builtin_features_recursively("side-by-side", &mut features, builtin_features, opt); }>>>
+//@tail features
+//@| ensures r@ =~= named_then_flags_spec(input_features@, builtin_features@, old(opt), git_config),  // @C13:named.features.are.gathered.before.the.command.line.feature.flags.in.a.fixed.order
+//@|         *final(opt) == *old(opt),
+//@rewriteall <<<for feature in input_features {>>> => <<<for feature in it: input_features {>>>
+//@before <<<// Gather features from command line.>>>| let ghost named = input_features@; let ghost gc0 = *git_config; proof { assert(features@ =~= Seq::<String>::empty()); }
+//@loop 1| invariant *opt == *old(opt), it.seq() == named, features@ =~= gather_named(Seq::empty(), named, it.index@, builtin_features@, opt, &gc0), gc0 == Some(*git_config),
+//@loop 2| invariant *opt == *old(opt), it.seq() == named, features@ =~= gather_named(Seq::empty(), named, it.index@, builtin_features@, opt, &gc0), gc0 is None,
 
 // ---------------------------------------------------------------- options/get.rs
 //@ type src/options/option_value.rs OptionValue noderive
